@@ -117,17 +117,19 @@ def backpressure(ctx: Ctx) -> None:
             res.count("S/back-pressure/sends_refused_by_the_library", refused)
             sim.run_for(0.05)
             got_while_blocked = len(dconn.received) - n0
-            dconn.sock.send_fault = None
-            sim.run_for(0.5)
-            # the device is reading again: what the client sends now continues the same stream
-            if sim.conns and sim.conns[0].obj.is_connected:
-                for k in range(5):
+            # the device reads again - at once (j even) or slowly, a few KiB per loop iteration, so that the transport falls below its low-water
+            # mark (resume_writing) with data still queued; the application keeps sending while the queue drains
+            dconn.sock.send_fault = None if j % 2 == 0 else ("rate", 3000 + 1000 * (j % 3))
+            for step in range(400):
+                sim.small_step()
+                if step % 3 == 0 and step < 240 and sim.conns and sim.conns[0].obj.is_connected:
                     try:
-                        cli.switch_command(900 + k, True)
-                        sent.append(("SwitchCommandRequest", pb.SwitchCommandRequest(key=900 + k, state=True).SerializeToString()))
+                        cli.switch_command(900 + step, True)
+                        sent.append(("SwitchCommandRequest", pb.SwitchCommandRequest(key=900 + step, state=True).SerializeToString()))
                     except Exception:  # noqa: BLE001
                         refused += 1
-                sim.run_for(0.1)
+            dconn.sock.send_fault = None
+            sim.run_for(0.5)
             got = [(r["name"], r["payload"]) for r in dconn.received[n0:]]
             res.evaluations += 1
             res.count(f"S/back-pressure/{framing}")
